@@ -102,6 +102,12 @@ def demanded (ts : List T) (c : Rat) : Option Bool :=
   else if !sameTaxa ts then some false
   else some true
 
+/-- … for any float64 threshold: `none` = NaN or ±Inf, which is not in [1/2, 1]: the call must be rejected -/
+def demandedThr (ts : List T) (c : Option Rat) : Option Bool :=
+  match c with
+  | none => some false
+  | some c => demanded ts c
+
 /-- the printing by which `canonSet` sorts distinguishes the sides that occur (hypothesis of
     the literal equality `splitsOK`; it can only fail for names that contain ", ") -/
 def keysOK (ts : List T) : Bool := decide (((allSides ts).map fun s => toString s).Nodup)
